@@ -87,6 +87,11 @@ def main():
     meta['needs_to_manifest'] = notes[:1500]
     meta['what_was_run'] = ('demo.py on clean /repo (rc %s) and with the patch applied (rc %s); baseline pytest with the patch; ./check <prop> --tier quick with the '
                             'patch applied; /repo restored with git checkout' % (meta['demo_clean_rc'], meta.get('demo_changed_rc')))
+    old_meta = json.loads((dest / 'meta.json').read_text()) if (dest / 'meta.json').exists() else {}
+    if 'tests_pass' not in meta and 'tests_pass' in old_meta:   # a --skip-tests re-run keeps the earlier baseline-test result of the same patch
+        meta['tests_with_change'], meta['tests_pass'] = old_meta.get('tests_with_change'), old_meta['tests_pass']
+    if old_meta.get('first_run_caught_by') is not None or old_meta.get('caught_by') is not None:
+        meta['first_run_caught_by'] = old_meta.get('first_run_caught_by', old_meta.get('caught_by'))
     (dest / 'meta.json').write_text(json.dumps(meta, indent=1) + '\n')
     print(json.dumps({k: v for k, v in meta.items() if k not in ('needs_to_manifest', 'demo_output_tail')}, indent=1))
     return 0
